@@ -4,6 +4,7 @@ import (
 	"fmt"
 	"os"
 	"path/filepath"
+	"strconv"
 	"strings"
 	"sync/atomic"
 	"time"
@@ -126,6 +127,7 @@ func checkC17(tier, replay string) int {
 		Faults []fault `json:"faults"`
 	}
 	var hs []history
+	var replayRepl *[3]string
 	if replay != "" {
 		var f struct {
 			Case history `json:"case"`
@@ -134,7 +136,23 @@ func checkC17(tier, replay string) int {
 			fmt.Println(err)
 			return 2
 		}
-		hs = []history{f.Case}
+		if len(f.Case.Faults) > 0 {
+			hs = []history{f.Case}
+		} else {
+			// a replacement history: {kind, hash_fault, tool_fault}
+			var g struct {
+				Case struct {
+					Kind      string `json:"kind"`
+					HashFault int    `json:"hash_fault"`
+					ToolFault string `json:"tool_fault"`
+				} `json:"case"`
+			}
+			if err := readJSON(replay, &g); err != nil || g.Case.Kind == "" {
+				fmt.Println("replay file holds neither a fault history nor a replacement history", err)
+				return 2
+			}
+			replayRepl = &[3]string{g.Case.Kind, fmt.Sprint(g.Case.HashFault), g.Case.ToolFault}
+		}
 	} else {
 		// byte positions of interest
 		pos := map[int]bool{0: true, len(L): true, len(L) - 1: true}
@@ -272,14 +290,26 @@ func checkC17(tier, replay string) int {
 		type repl struct {
 			Kind      string `json:"kind"`       // other-arch | patched-after-linking
 			HashFault int    `json:"hash_fault"` // 0: none; N: the N-th read(2) of the binary fails with EIO in the final run
+			ToolFault string `json:"tool_fault"` // "": none; the disassembler of the run after the replacement fails: tool-missing | exit1-after-all | exit1-after-half | killed-after-half | exit1-after-nothing
 		}
 		var rs []repl
 		for _, k := range []string{"other-arch", "patched-after-linking"} {
-			rs = append(rs, repl{k, 0})
+			rs = append(rs, repl{k, 0, ""})
 			if haveStrace == nil {
 				for n := 1; n <= 3; n++ {
-					rs = append(rs, repl{k, n})
+					rs = append(rs, repl{k, n, ""})
 				}
+			}
+			// the stale cache of the old binary is there and the disassembler fails for the new one
+			for _, tf := range []string{"tool-missing", "exit1-after-all", "exit1-after-half", "killed-after-half", "exit1-after-nothing"} {
+				rs = append(rs, repl{k, 0, tf})
+			}
+		}
+		if replay != "" {
+			rs = nil
+			if replayRepl != nil {
+				n, _ := strconv.Atoi(replayRepl[1])
+				rs = []repl{{replayRepl[0], n, replayRepl[2]}}
 			}
 		}
 		// second listing: the small one plus two more syscall sites
@@ -335,10 +365,32 @@ func checkC17(tier, replay string) int {
 				if r.HashFault > 0 {
 					wrapper = []string{"strace", "-f", "-o", "/dev/null", "-P", bin, "-e", "trace=read", "-e", fmt.Sprintf("inject=read:error=EIO:when=%d", r.HashFault)}
 				}
-				r2 := runProf(bin, small2, nil, wrapper...)
+				var r2 cmdResult
+				switch r.ToolFault {
+				case "":
+					r2 = runProf(bin, small2, nil, wrapper...)
+				case "tool-missing":
+					r2 = runCmd(60*time.Second, []string{"PATH=/nonexistent-dir", "HOME=" + filepath.Join(scratch, "home"), "USER=root"}, scratch, pe.profiler, "-format", "config", bin)
+				case "exit1-after-all":
+					r2 = runProf(bin, small2, []string{fmt.Sprintf("FAKE_CUT=%d", len(L2)), "FAKE_EXIT=1"})
+				case "exit1-after-half":
+					r2 = runProf(bin, small2, []string{fmt.Sprintf("FAKE_CUT=%d", len(L2)/2), "FAKE_EXIT=1"})
+				case "killed-after-half":
+					r2 = runProf(bin, small2, []string{fmt.Sprintf("FAKE_CUT=%d", len(L2)/2), "FAKE_KILL=self"})
+				case "exit1-after-nothing":
+					r2 = runProf(bin, small2, []string{"FAKE_CUT=0", "FAKE_EXIT=1"})
+				}
 				atomic.AddInt64(&runs, 1)
+				if r.ToolFault != "" {
+					// and the normal run after the failed one
+					r3 := runProf(bin, small2, nil)
+					atomic.AddInt64(&runs, 1)
+					if r3.Exit == 0 && r3.Stdout != cold2 {
+						ctx.Violation("C17:binary-replaced+"+r.ToolFault+":next-run", fmt.Sprintf("binary replaced (%s), disassembler failure (%s), then a normal run: it did not profile the new binary:\n--- got\n%s--- cold profile of the new binary\n%s", r.Kind, r.ToolFault, clip(r3.Stdout, 400), clip(cold2, 400)), r)
+					}
+				}
 				if r2.Exit == 0 && r2.Stdout != cold2 {
-					ctx.Violation("C17:binary-replaced:"+r.Kind, fmt.Sprintf("the binary at the same path was replaced (%s, hash read fault at read #%d) but the next run did not profile the new binary (reused cache: %v):\n--- got\n%s--- cold profile of the new binary\n%s", r.Kind, r.HashFault, strings.Contains(r2.Stderr, "Using cached objdump"), clip(r2.Stdout, 400), clip(cold2, 400)), r)
+					ctx.Violation("C17:binary-replaced:"+r.Kind+":"+r.ToolFault, fmt.Sprintf("the binary at the same path was replaced (%s, hash read fault at read #%d, disassembler fault %q) but the next run exited 0 without profiling the new binary (reused cache: %v):\n--- got\n%s--- cold profile of the new binary\n%s", r.Kind, r.HashFault, r.ToolFault, strings.Contains(r2.Stderr, "Using cached objdump"), clip(r2.Stdout, 400), clip(cold2, 400)), r)
 				}
 			})
 		}
@@ -352,7 +404,7 @@ func checkC17(tier, replay string) int {
 	if straceUnavailable > 0 {
 		ctx.Capped("strace not available: write-level crash points skipped")
 	}
-	ctx.Cov["rule"] = "histories run1(fault)[; run2(fault')]; run(normal) on the real profiler binary with a fake `go` tool: disassembler prints the first p bytes of the listing and exits 1 or is killed (quick: every line boundary, every byte of the first two lines and of the execve site, around every 4096-byte flush boundary of a 20 kB listing; thorough: every byte), tool missing from PATH, the profiler itself killed with SIGKILL after the disassembler produced p bytes (every 1024 bytes of a 20 kB listing), SIGKILL or ENOSPC injected by strace at the N-th write to the cache file (N=1..9), and depth-2 fault sequences at line granularity; oracle: the final normal run prints exactly the cold-cache profile or exits non-zero, and a reused cache file equals the complete one; replacement histories: the binary at the same path is replaced by another one (other architecture; same file with bytes of .text flipped, i.e. identical Go build id), with and without an EIO injected at the N-th read while hashing: the next run must profile the new binary; distinct_nontrivial = histories"
+	ctx.Cov["rule"] = "histories run1(fault)[; run2(fault')]; run(normal) on the real profiler binary with a fake `go` tool: disassembler prints the first p bytes of the listing and exits 1 or is killed (quick: every line boundary, every byte of the first two lines and of the execve site, around every 4096-byte flush boundary of a 20 kB listing; thorough: every byte), tool missing from PATH, the profiler itself killed with SIGKILL after the disassembler produced p bytes (every 1024 bytes of a 20 kB listing), SIGKILL or ENOSPC injected by strace at the N-th write to the cache file (N=1..9), and depth-2 fault sequences at line granularity; oracle: the final normal run prints exactly the cold-cache profile or exits non-zero, and a reused cache file equals the complete one; replacement histories: the binary at the same path is replaced by another one (other architecture; same file with bytes of .text flipped, i.e. identical Go build id), with and without an EIO injected at the N-th read while hashing, and with the disassembler failing for the new binary while the old binary's complete cache file is still there (tool missing; exit 1 after all, half or none of the output; killed): a run that exits 0 must print the new binary's cold profile, and so must the normal run after it; distinct_nontrivial = histories"
 	ctx.Assumptions = []string{"the fake go tool stands for any disassembler failure; the cache path is <home>/.seccomp-profiler/<base>-<sha256(abs)[:10]> as the profiler logs it", "strace injection realises crashes at write granularity"}
 	if replay != "" {
 		return finishReplay(ctx)
